@@ -92,4 +92,36 @@ PROPS = {
                      'units other than the three sampled shapes (Unit::eq/hash compare all fields bitwise).'),
         technique='contract-based deductive verification: Kani complete symbolic harnesses over all f64 on the real trait impls',
     ),
+    'C02': dict(
+        title='Hayson encode -> decode returns the original value',
+        verus=[],
+        kani=[dict(harness='k_json_number_exact', klass='complete', schema=['f64'], family='json-number', target='<Number as Serialize>::serialize'),
+              dict(harness='k_json_number_unit_trace', klass='complete', schema=['f64'], family='json-number', target='<Number as Serialize>::serialize (with unit)')],
+        witness=None,
+        design_ref='DESIGN.md section 4, C02',
+        level_text=('Proof (Kani/CBMC, complete over all f64) of the number clause: the real <Number as Serialize>::serialize, run into a '
+                    'recording Serializer, emits exactly one JSON number denoting the same f64 (integer form only when exact and not -0.0), '
+                    'the Hayson string form for INF/-INF/NaN, and {_kind:number,val:<same f64>,unit:<symbol>} when a unit is present: '
+                    'no finite number changes magnitude and no number changes kind.'),
+        not_decided=('serde_json itself (text <-> call trace, 128-level recursion limit); Date/Time/DateTime text (chrono; kernel in C06); '
+                     'List/Dict/Grid (serialize_seq/visit_map are generic over external traits); the decode helpers parse_* of decode.rs; '
+                     'typed Deserialize impls.'),
+        technique='contract-based deductive verification: Kani complete symbolic harness over all f64 on the real Serialize impl with a recording Serializer',
+    ),
+    'C05': dict(
+        title='Hayson JSON conforms to the Project Haystack JSON encoding',
+        verus=[],
+        kani=[dict(harness='k_json_scalar_traces', klass='complete', schema=['u8', 'f64', 'f64'], family=None, target='Serialize for Marker/Na/Remove/Coord/Symbol/Uri/Ref/XStr'),
+              dict(harness='k_json_number_exact', klass='complete', schema=['f64'], family='json-number', target='<Number as Serialize>::serialize'),
+              dict(harness='k_json_number_unit_trace', klass='complete', schema=['f64'], family='json-number', target='<Number as Serialize>::serialize (with unit)')],
+        witness=None,
+        design_ref='DESIGN.md section 4, C05',
+        level_text=('Proof (Kani/CBMC) of the writer side for scalars: the serializer call trace of Marker, NA, Remove, Coord (all f64), '
+                    'Symbol, Uri, Ref (with and without dis), XStr and Number (all f64, with and without unit) uses exactly the "_kind" '
+                    'values and member names of the Hayson table (typed into the harness from the specification), in a map of the stated size.'),
+        not_decided=('Reader side: member-order independence and optional members of visit_map (generic over serde::de::MapAccess); '
+                     'list/dict/grid layout; Date/Time/DateTime text; JSON number spellings (serde_json); payload strings are concrete '
+                     '2-byte strings (the trace shape does not depend on them).'),
+        technique='contract-based deductive verification: Kani harnesses on the real Serialize impls with a recording Serializer',
+    ),
 }
